@@ -52,6 +52,22 @@ def lin(t):
         return lin(t[1])
     if k == "field" and t[2] == ".0" and t[1][0] == "bin" and t[1][1].endswith("WithOverflow"):
         return lin(t[1])
+    if k == "field" and t[2] == ".0" and t[1][0] == "field" and t[1][2] == "as Continue" and t[1][1][0] == "call" \
+            and t[1][1][1].endswith("::branch") and "Try" in t[1][1][1] and len(t[1][1][2]) == 1:
+        # `x?` where x is (on its success alternative) the literal Ok(v) / Some(v) of an inlined helper: the value is v
+        src = t[1][1][2][0]
+        while src[0] in ("ref", "deref", "cast"):
+            src = src[1]
+        alts = list(src[1]) if src[0] == "phi" else [src]
+        oks = [a for a in alts if a[0] == "agg" and (a[1].endswith("Result::Ok") or a[1].endswith("Option::Some")) and len(a[2]) == 1]
+        rest = [a for a in alts if not (a[0] == "agg" and (a[1].endswith("Result::Err") or a[1].endswith("Option::None")
+                                                        or a[1].endswith("Result::Ok") or a[1].endswith("Option::Some")))
+                and not (a[0] == "call" and a[1].endswith("from_residual"))]
+        if len(oks) == 1 and not rest:
+            return lin(oks[0][2][0])
+    if k == "field" and t[2] == ".0" and t[1][0] == "field" and t[1][2] == "as Some" and t[1][1][0] == "call" \
+            and t[1][1][1].split("::")[-1] in ("checked_add", "checked_sub"):
+        return lin(t[1][1])      # the payload of Some(a.checked_sub(b)) is a - b
     if k == "deref":
         inner = lin(t[1])
         if len(inner.terms) == 1 and inner.k == 0 and list(inner.terms.values()) == [1]:
@@ -89,7 +105,11 @@ def lin(t):
                     return Lin(0, {t: 1})
                 r.flags.add(flag)
                 return r
-        if m in ("from", "into", "clone", "to_owned", "deref", "borrow", "as_ref") and len(args) == 1:
+        # operator traits on references (`&u64 + u64` is a call to <&u64 as Add<u64>>::add in MIR)
+        if len(args) == 2 and m in ("add", "sub") and ("::ops::" in p or p.endswith("Add::add") or p.endswith("Sub::sub") or "arith" in p):
+            a, b = lin(args[0]), lin(args[1])
+            return a.add(b) if m == "add" else a.add(b, -1)
+        if m in ("from", "into", "clone", "to_owned", "deref", "borrow", "as_ref", "copied", "cloned") and len(args) == 1:
             return lin(args[0])
         return Lin(0, {t: 1})
     if k == "ref":
@@ -195,6 +215,34 @@ def edge_forms(fn):
         term = origin(fn, t["discr"])
         f = compare_form(term)
         if f is None:
+            # `match a.checked_sub(b) { None => .., Some(d) => .. }` : None <=> a < b (unsigned)
+            if term[0] == "discr" and term[1][0] == "call" and term[1][1].split("::")[-1] == "checked_sub" and len(term[1][2]) == 2 and len(term) > 3 and term[3]:
+                a, b2 = lin(term[1][2][0]), lin(term[1][2][1])
+                none_f = _cmp("Lt", a, b2)
+                names = {val: n for (n, val) in term[3]}
+                for s in fn.succ(b):
+                    vals = [v for v, tb in t["targets"] if tb == s]
+                    kinds = {names.get(v) for v in vals}
+                    if not vals and t.get("otherwise") == s:
+                        listed = {v for v, _ in t["targets"]}
+                        kinds = {n for (n, val) in term[3] if val not in listed}
+                    if kinds == {"None"}:
+                        out.append((b, s, none_f, t["loc"]["l"]))
+                    elif kinds == {"Some"}:
+                        out.append((b, s, none_f.negate(), t["loc"]["l"]))
+                continue
+            # `match d { 0 => .., _ => .. }` on an integer: value edges are equalities, the rest inequalities
+            if t.get("ty") in ("u8", "u16", "u32", "u64", "u128", "usize", "i32", "i64", "isize") and term[0] not in ("discr",):
+                l0 = lin(term)
+                if l0.terms:
+                    for s in fn.succ(b):
+                        vals = [v for v, tb in t["targets"] if tb == s]
+                        if len(vals) == 1:
+                            e = Lin(l0.k - vals[0], l0.terms, l0.flags, l0.consts)
+                            out.append((b, s, Form(e, "=="), t["loc"]["l"]))
+                        elif not vals and t.get("otherwise") == s and len(t["targets"]) == 1:
+                            e = Lin(l0.k - t["targets"][0][0], l0.terms, l0.flags, l0.consts)
+                            out.append((b, s, Form(e, "!="), t["loc"]["l"]))
             continue
         for s in fn.succ(b):
             vals = [v for v, tb in t["targets"] if tb == s]
